@@ -70,7 +70,12 @@ func (s *Secret) WithBytes(action func([]byte) error) error {
 		s.UseAfter++
 		return errClosed
 	}
-	return action(s.B)
+	err := action(s.B)
+	// like the real implementations: the action has run, then making the memory inaccessible again may fail
+	if vx.Fault("secretrelease", "release") {
+		return errors.New("vx: unable to mark memory as no-access")
+	}
+	return err
 }
 
 func (s *Secret) WithBytesFunc(action func([]byte) ([]byte, error)) ([]byte, error) {
@@ -78,7 +83,11 @@ func (s *Secret) WithBytesFunc(action func([]byte) ([]byte, error)) ([]byte, err
 		s.UseAfter++
 		return nil, errClosed
 	}
-	return action(s.B)
+	ret, err := action(s.B)
+	if vx.Fault("secretrelease", "release") {
+		return ret, errors.New("vx: unable to mark memory as no-access")
+	}
+	return ret, err
 }
 
 func (s *Secret) IsClosed() bool { return s.Closed }
@@ -149,6 +158,7 @@ func (s *Spy) Load(ctx context.Context, id string, created int64) (*ae.EnvelopeK
 		vx.Yield()
 	}
 	s.Loads++
+	maybeCancel()
 	if vx.Fault("ext", "meta.Load") {
 		return nil, errors.New("vx: injected metastore Load failure")
 	}
@@ -160,6 +170,7 @@ func (s *Spy) LoadLatest(ctx context.Context, id string) (*ae.EnvelopeKeyRecord,
 		vx.Yield()
 	}
 	s.Latests++
+	maybeCancel()
 	if vx.Fault("ext", "meta.LoadLatest") {
 		return nil, errors.New("vx: injected metastore LoadLatest failure")
 	}
@@ -171,6 +182,7 @@ func (s *Spy) Store(ctx context.Context, id string, created int64, ekr *ae.Envel
 		vx.Yield()
 	}
 	s.Stores++
+	maybeCancel()
 	if vx.Fault("ext", "meta.Store") {
 		switch vx.Choice("storefault", 3) {
 		case 0:
@@ -212,6 +224,20 @@ func (s *Spy) Latest(id string) *ae.EnvelopeKeyRecord {
 	return best
 }
 
+// Redate moves the stored record (id, old) to (id, new), as if it had been written at another time (by a host with
+// a different clock, an import, ...). The wrapped key bytes are untouched.
+func (s *Spy) Redate(id string, old, new int64) *ae.EnvelopeKeyRecord {
+	m := s.Inner.Envelopes[id]
+	r := m[old]
+	if r == nil {
+		return nil
+	}
+	delete(m, old)
+	r.Created = new
+	m[new] = r
+	return r
+}
+
 func (s *Spy) Rows(id string) int { return len(s.Inner.Envelopes[id]) }
 
 // ---- spy KMS ----
@@ -223,6 +249,7 @@ type SpyKMS struct {
 
 func (k *SpyKMS) EncryptKey(ctx context.Context, b []byte) ([]byte, error) {
 	k.Encs++
+	maybeCancel()
 	if vx.Fault("ext", "kms.EncryptKey") {
 		return nil, errors.New("vx: injected KMS EncryptKey failure")
 	}
@@ -231,10 +258,36 @@ func (k *SpyKMS) EncryptKey(ctx context.Context, b []byte) ([]byte, error) {
 
 func (k *SpyKMS) DecryptKey(ctx context.Context, b []byte) ([]byte, error) {
 	k.Decs++
+	maybeCancel()
 	if vx.Fault("ext", "kms.DecryptKey") {
 		return nil, errors.New("vx: injected KMS DecryptKey failure")
 	}
 	return k.Inner.DecryptKey(ctx, b)
+}
+
+// ---- caller contexts that end while a call is in flight ----
+
+var cancelFn func()
+
+// CancellableCtx returns a context for one SDK call that may be cancelled from inside any metastore / KMS call made
+// during it (the external call itself still succeeds): what a caller's deadline expiring mid-operation looks like.
+// done() ends the arrangement.
+func CancellableCtx() (ctx context.Context, done func()) {
+	ctx, cancel := context.WithCancel(context.Background())
+	cancelFn = cancel
+	vx.FaultCap(-1) // the per-domain budgets decide; a global cap of another experiment must not switch this off
+	vx.FaultBudget("ctx", 1)
+	return ctx, func() {
+		vx.FaultBudget("ctx", 0)
+		cancelFn = nil
+		cancel()
+	}
+}
+
+func maybeCancel() {
+	if cancelFn != nil && vx.Fault("ctx", "cancel") {
+		cancelFn()
+	}
 }
 
 // ---- environment ----
